@@ -10,7 +10,7 @@
             on every correspondence case (Run/C08.v).
     Only theorem statements here; the proofs are in Proofs/C08_tables.v and Proofs/C08_logic.v. *)
 From Coq Require Import List String Ascii Bool.
-From PintV Require Import Common.Bytes Gen.Tables Model.CheckSwitch Model.Routing08Tables Proofs.C08_tables Proofs.C08_logic.
+From PintV Require Import Common.Bytes Gen.Tables Model.CheckSwitch Model.Routing08Tables Proofs.C08_tables Proofs.C08_logic Proofs.C08_online.
 Import ListNotations.
 Open Scope string_scope.
 Open Scope list_scope.
@@ -213,6 +213,89 @@ Qed.
 Print Assumptions C08_table_lists_satisfy_premises.
 
 (* ---------------------------------------------------------------------------------------------- *)
+(** * Part 3 — [--offline] and Meta().Online, Meta().States *)
+
+(** the parsed rules GetChecksForEntry can build for a healthy entry from the registration sites of the current source *)
+Definition from_table (prs : list prule) : Prop :=
+  forall p, In p prs -> exists r t suffix tags locked matched,
+      In r registrations /\ type_of_ctor (rg_ctor r) = Some t /\
+      (suffix = "" \/ exists rest, suffix = String lparen rest) /\
+      p = prule_of_registration r t suffix tags locked matched.
+
+(** After [--offline] no check whose Meta().Online is true is run — whatever else is configured — except a check that
+    a matching rule{enable=[name]} block re-enables (the documented precedence).  This joins DisableOnlineChecks (a list
+    of NAMES) with the per-type flag Meta().Online through the generated tables. *)
+Theorem C08_offline_runs_no_online_check : forall c e prs p,
+  from_table prs ->
+  In p (get_checks (with_disabled c (disable_online_checks online_checks (c_disabled c))) e prs) ->
+  ck_online (pr_check p) = false \/ cfg_enables (c_rules c) (ck_reporter (pr_check p)) = true.
+Proof.
+  intros c e prs p HT Hin.
+  destruct (C08_table_lists_satisfy_premises prs HT) as [W R].
+  rewrite (C08_offline_is_disable_list c e prs W R) in Hin.
+  apply filter_In in Hin. destruct Hin as [Hp Hk]. apply get_checks_incl in Hp.
+  destruct (HT p Hp) as [r [t [suffix [tags [locked [matched [Hr [Ht [Hs ->]]]]]]]]].
+  destruct (C08_table_rules_wellformed r t suffix tags locked matched Hr Ht Hs) as [Hn [_ [_ Ha]]].
+  cbn [prule_of_registration pr_check ck_always ck_reporter ck_online pr_name] in *.
+  rewrite Ha in Hk. cbn [orb] in Hk.
+  destruct (cfg_enables (c_rules c) (ct_reporter t)); [right; reflexivity|left].
+  rewrite orb_false_r in Hk. apply negb_true_iff in Hk.
+  destruct (online_iff_listed_lifted r Hr) as [t' [Ht' Hiff]]. rewrite Ht in Ht'. inversion Ht'; subst t'.
+  destruct (ct_online t); [|reflexivity].
+  exfalso. assert (Hl : In (rg_name r) online_checks) by (apply Hiff; reflexivity).
+  apply mem_str_In in Hl. rewrite Hn in Hl. rewrite Hl in Hk. discriminate.
+Qed.
+Print Assumptions C08_offline_runs_no_online_check.
+
+(** ... and [--offline] switches off nothing else: every check that ran before and does not talk to Prometheus still runs. *)
+Theorem C08_offline_keeps_offline_checks : forall c e prs p,
+  from_table prs ->
+  In p (get_checks c e prs) -> ck_online (pr_check p) = false ->
+  In p (get_checks (with_disabled c (disable_online_checks online_checks (c_disabled c))) e prs).
+Proof.
+  intros c e prs p HT Hin Hoff.
+  destruct (C08_table_lists_satisfy_premises prs HT) as [W R].
+  rewrite (C08_offline_is_disable_list c e prs W R).
+  apply filter_In. split; [exact Hin|].
+  apply get_checks_incl in Hin.
+  destruct (HT p Hin) as [r [t [suffix [tags [locked [matched [Hr [Ht [Hs ->]]]]]]]]].
+  destruct (C08_table_rules_wellformed r t suffix tags locked matched Hr Ht Hs) as [Hn _].
+  cbn [prule_of_registration pr_check ck_always ck_reporter ck_online pr_name] in *.
+  destruct (online_iff_listed_lifted r Hr) as [t' [Ht' Hiff]]. rewrite Ht in Ht'. inversion Ht'; subst t'.
+  destruct (mem_str (ct_reporter t) online_checks) eqn:M.
+  - exfalso. apply mem_str_In in M. rewrite <- Hn in M. apply Hiff in M. rewrite M in Hoff. discriminate.
+  - cbn. rewrite orb_true_r. reflexivity.
+Qed.
+Print Assumptions C08_offline_keeps_offline_checks.
+
+(** A check only ever runs on an entry its rule block matches and whose change state it declares in Meta().States. *)
+Theorem C08_checks_run_in_declared_states : forall c e prs p,
+  In p (get_checks c e prs) ->
+  In p prs /\ pr_matched p = true /\ In (e_state e) (ck_states (pr_check p)).
+Proof.
+  intros c e prs p H. destruct (get_checks_declared c e prs p H) as [H1 [H2 H3]].
+  split; [exact H1|]. split; [exact H2|]. apply mem_str_In. exact H3.
+Qed.
+Print Assumptions C08_checks_run_in_declared_states.
+
+(** Meta().States of every check type of the current source (generated): non-empty, only ChangeType constants, and
+    only the always-enabled ErrorCheck and rule/dependency declare [Removed]. *)
+Theorem C08_states_table : forall t, In t check_types ->
+  ct_states t <> [] /\ (forall s, In s (ct_states t) -> In s known_states) /\
+  (In "Removed" (ct_states t) -> ct_always t = true \/ ct_reporter t = "rule/dependency").
+Proof.
+  intros t Ht. pose proof (proj1 (forallb_forall _ _) all_type_states_ok t Ht) as H.
+  unfold type_states_ok in H. apply andb_true_iff in H. destruct H as [H H3].
+  apply andb_true_iff in H. destruct H as [H1 H2].
+  split; [|split].
+  - intro E. rewrite E in H1. discriminate.
+  - intros s Hs. apply mem_str_In. exact (proj1 (forallb_forall _ _) H2 s Hs).
+  - intro Hr. apply mem_str_In in Hr. rewrite Hr in H3. cbn [negb orb] in H3.
+    apply orb_true_iff in H3. destruct H3 as [H3|H3]; [left; exact H3|right; apply String.eqb_eq; exact H3].
+Qed.
+Print Assumptions C08_states_table.
+
+(* ---------------------------------------------------------------------------------------------- *)
 (** * Non-vacuity: a concrete instance where the premises hold and the switches do something *)
 
 Definition ex_check (s r : string) (al : bool) : check :=
@@ -232,4 +315,22 @@ Example C08_nonvacuous :
   map pr_name (get_checks (with_disabled ex_cfg (disable_online_checks online_checks [])) ex_entry ex_prs) = ["promql/syntax"; "rule/label"; "yaml/parse"] /\
   map pr_name (get_checks (with_rules ex_cfg [ {| cr_matched := true; cr_enable := []; cr_disable := ["promql/syntax"] |} ]) ex_entry ex_prs)
      = ["promql/rate"; "rule/label"; "yaml/parse"].
+Proof. vm_compute. repeat split. Qed.
+
+(** Non-vacuity of Part 3: two parsed rules built from registration sites of the current source (promql/series bound to
+    a server, promql/syntax); both run, the first is an online check, --offline leaves exactly the second. *)
+Example C08_offline_nonvacuous :
+  match find (fun r => String.eqb (rg_name r) "promql/series") registrations,
+        find (fun r => String.eqb (rg_name r) "promql/syntax") registrations with
+  | Some r1, Some r2 =>
+      match type_of_ctor (rg_ctor r1), type_of_ctor (rg_ctor r2) with
+      | Some t1, Some t2 =>
+          let prs := [prule_of_registration r1 t1 "(prom)" [] false true; prule_of_registration r2 t2 "" [] false true] in
+          map pr_name (get_checks ex_cfg ex_entry prs) = ["promql/series"; "promql/syntax"] /\
+          map (fun p => ck_online (pr_check p)) prs = [true; false] /\
+          map pr_name (get_checks (with_disabled ex_cfg (disable_online_checks online_checks (c_disabled ex_cfg))) ex_entry prs) = ["promql/syntax"]
+      | _, _ => False
+      end
+  | _, _ => False
+  end.
 Proof. vm_compute. repeat split. Qed.
